@@ -5,6 +5,7 @@ pub mod lru;
 pub mod query;
 pub mod sat;
 pub mod sdd;
+pub mod semhash;
 pub mod table;
 
 use crate::core::World;
@@ -16,9 +17,10 @@ static SAT: sat::SatWorld = sat::SatWorld;
 static CNF: cnf::CnfWorld = cnf::CnfWorld;
 static SDD: sdd::SddWorld = sdd::SddWorld;
 static QUERY: query::QueryWorld = query::QueryWorld;
+static SEMHASH: semhash::SemHashWorld = semhash::SemHashWorld;
 
 pub fn all() -> Vec<&'static dyn World> {
-    vec![&TABLE, &LRU, &BDD, &SAT, &CNF, &SDD, &QUERY]
+    vec![&TABLE, &LRU, &BDD, &SAT, &CNF, &SDD, &QUERY, &SEMHASH]
 }
 
 pub fn lookup(name: &str) -> Option<&'static dyn World> {
